@@ -299,6 +299,28 @@ func scenarios() []*sched.Scenario {
 			vrt.Fail("counter|nonzero-after-shutdown", "pending counter is %d after shutdown completed", c)
 		}
 	}})
+	// (F6) a Submit that is refused with a panic (WithPanicOnSubmitAfterShutdown) is not an accepted task: the
+	// counter stays at zero, waits return, and the pool can be restarted and shut down again
+	out = append(out, &sched.Scenario{Name: "refused-submit-panics-and-leaves-no-trace/w1", QuickMaxBound: 2, Run: func() {
+		root := workerpool.NewGroup("g")
+		p := root.CreatePool("p", workerpool.WithWorkerCount(1), workerpool.WithPanicOnSubmitAfterShutdown(true))
+		ran := 0
+		p.Submit(func() { ran++ })
+		p.PendingTasksCounter.WaitIsZero()
+		p.Shutdown()
+		p.ShutdownComplete.Wait()
+		func() {
+			defer func() { _ = recover() }()
+			p.Submit(func() { ran++ })
+		}()
+		if c := p.PendingTasksCounter.Get(); c != 0 {
+			vrt.Fail("counter|nonzero-after-refused-submit", "a Submit refused after shutdown left the pending counter at %d", c)
+		}
+		root.WaitChildren()
+		if ran != 1 {
+			vrt.Fail("task|run-after-shutdown-complete", "%d tasks ran, one was accepted", ran)
+		}
+	}})
 	// (G) nested groups: every level must see the pools below it (root -> mid -> leaf -> pool)
 	out = append(out, &sched.Scenario{Name: "group/nested-waitchildren", QuickMaxBound: 2, Run: func() {
 		root := workerpool.NewGroup("root")
